@@ -21,7 +21,7 @@ def type_tag(t: Base) -> str:
 
 def probe_file(offset: int, types: List[Base], name: str) -> Tuple[File, List[Tuple[Message, Base]]]:
     """One message per type: pad(offset bits), scalar, arrays of capacity 1/2/3/5 (the 8/16/32/64-bit ones take the C
-    batch path), alias, alias of array, one-bit tail.  Successive fields start at (offset + k*width) mod 8, so over the
+    batch path), alias, alias of array, array of alias elements, 2-D rows, one-bit tail.  Successive fields start at (offset + k*width) mod 8, so over the
     8 pad widths every position sees every bit offset."""
     f = File(name)
     out = []
@@ -43,6 +43,7 @@ def probe_file(offset: int, types: List[Base], name: str) -> Tuple[File, List[Tu
         m.add(Field("a5", Arr(Base(t.kind, t.width), 5), 6))
         m.add(Field("al", Ref(al), 7))
         m.add(Field("aa", Ref(aa), 8))
+        m.add(Field("ea", Arr(Ref(al), 3), 9))      # array whose ELEMENT type is an alias of the base type
         m.add(Field("rows", Arr(Ref(row), 2), 10))
         m.add(Field("tail", Base("bool"), 11))
         f.add(m)
@@ -82,7 +83,7 @@ def probe_values(m: Message, t: Base, full: bool) -> List[Tuple[str, Any]]:
     pad = next((it for it in items if it.path == (1,)), None)
     if pad is not None:
         zero = ref.set_leaf(m, zero, pad.path, (1 << pad.width) - 1)
-    probed = [it for it in items if it.path[0] in (2, 3, 4, 5, 6, 7, 8, 10)]
+    probed = [it for it in items if it.path[0] in (2, 3, 4, 5, 6, 7, 8, 9, 10)]
     out: List[Tuple[str, Any]] = []
     for b in basis(t, full):
         allv = zero
@@ -90,7 +91,7 @@ def probe_values(m: Message, t: Base, full: bool) -> List[Tuple[str, Any]]:
             allv = ref.set_leaf(m, allv, it.path, b)
         allv = ref.set_leaf(m, allv, (11,), 1)
         out.append((f"all={b}", allv))
-    pos_sample = probed if full else [it for it in probed if it.path in ((2,), (3, 0), (4, 1), (6, 4), (7,), (8, 2), (10, 0, 1), (10, 1, 0))]
+    pos_sample = probed if full else [it for it in probed if it.path in ((2,), (3, 0), (4, 1), (6, 4), (7,), (8, 2), (9, 1), (10, 0, 1), (10, 1, 0))]
     for it in pos_sample:
         for b in basis(t, full):
             if b == 0:
@@ -100,4 +101,4 @@ def probe_values(m: Message, t: Base, full: bool) -> List[Tuple[str, Any]]:
 
 
 def position_of(path: Tuple) -> str:
-    return {2: "scalar", 3: "array", 4: "array", 5: "array", 6: "array", 7: "alias", 8: "alias-of-array", 10: "array-of-alias-of-array"}.get(path[0], "other")
+    return {2: "scalar", 3: "array", 4: "array", 5: "array", 6: "array", 7: "alias", 8: "alias-of-array", 9: "array-of-alias", 10: "array-of-alias-of-array"}.get(path[0], "other")
